@@ -118,11 +118,23 @@ def _work(arg):
         signal.alarm(limit)
     except (ValueError, AttributeError):
         pass
+    acc = None
     try:
         mod = importlib.import_module('pcfgmc.props.' + pid.lower())
         acc = Acc()
         mod.run_shard(shard, tier, acc)
         return ('ok', acc.export())
+    except Exception as e:
+        # An exception nobody caught.  If the frame that let it out belongs to the code under test (it raised while being used the way it is used on
+        # every passing run), that is a finding about that code: it is reported as a VIOLATION with the traceback, not as a broken check.  If the frame
+        # belongs to the harness (an interface it relies on is gone, a bug of its own), the check cannot decide anything: harness error.
+        where = _raised_in_code_under_test(e)
+        if where and acc is not None:
+            acc.fail({'uncaught': True, 'shard': list(shard) if isinstance(shard, tuple) else shard, 'tier': tier},
+                     'the code under test raised %r in %s while shard %r was exploring; traceback tail: %s'
+                     % (e, where, shard, ' | '.join(l.strip() for l in traceback.format_exc().strip().splitlines()[-6:])), 'uncaught-raise:' + where.split(':')[0])
+            return ('ok', acc.export())
+        return ('err', 'shard %r: %s' % (shard, traceback.format_exc()))
     except BaseException:
         return ('err', 'shard %r: %s' % (shard, traceback.format_exc()))
     finally:
@@ -130,6 +142,24 @@ def _work(arg):
             signal.alarm(0)
         except (ValueError, AttributeError):
             pass
+
+
+_TOOLS = ('pcfg_guesser.py', 'trainer.py', 'password_scorer.py', 'prince_ling.py', 'edit_rules.py')
+
+
+def _raised_in_code_under_test(exc):
+    """'<file>:<function>' of the outermost non-library frame below which the exception was raised, if that frame is code under test; else None."""
+    frames = traceback.extract_tb(exc.__traceback__)
+    own = os.path.join(VERIF, '')
+    for fr in reversed(frames):
+        fn = fr.filename
+        if fn.startswith(own):
+            return None                          # a harness frame is the innermost non-library frame
+        parts = fn.replace('\\', '/').split('/')
+        if any(p in ('lib_guesser', 'lib_trainer', 'lib_scorer', 'lib_princeling') for p in parts) or parts[-1] in _TOOLS:
+            return '%s:%s' % ('/'.join(parts[-2:]) if parts[-1] not in _TOOLS else parts[-1], fr.name)
+        # anything else (standard library, site-packages): called by the frame above it - keep walking outwards
+    return None
 
 
 def match_known(sig, known_sigs):
@@ -167,7 +197,13 @@ def main(argv=None):
     if args.replay:
         with open(args.replay) as f:
             rec = json.load(f)
-        res = mod.replay(rec['case'])
+        if isinstance(rec['case'], dict) and rec['case'].get('uncaught'):
+            sh = rec['case']['shard']
+            status, payload = _work((pid, rec['case'].get('tier', 'quick'), tuple(sh) if isinstance(sh, list) else sh))
+            fs = [f for f in (payload.get('failures', []) if status == 'ok' else []) if f['sig'].startswith('uncaught-raise')]
+            res = fs[0]['msg'] if fs else (payload if status != 'ok' else None)
+        else:
+            res = mod.replay(rec['case'])
         if res is None:
             print('replay: property holds on this case')
             return 0
